@@ -159,7 +159,7 @@ func fakeOpenFile(name string, flag int, perm os.FileMode) (*os.File, error) {
 }
 
 func fakeFileWrite(f *os.File, p []byte) (int, error) {
-	if fs.writeFails && len(p) > 0 {
+	if fs.writeFails { // like /dev/full: every write fails, a zero-length one included
 		return 0, errors.New("write: no space left on device")
 	}
 	fs.content = append(fs.content, p...)
@@ -240,7 +240,8 @@ func Harness_C15_decrypt() {
 	if V.Symbolic() {
 		created, content = fs.created, fs.content
 	} else if mode == 2 {
-		created, content = true, nil
+		// /dev/full always exists and never holds data: creation is not observable
+		created, content = code == 0, nil
 	} else {
 		b, rerr := os.ReadFile(name)
 		created, content = rerr == nil, b
@@ -250,7 +251,7 @@ func Harness_C15_decrypt() {
 		V.Assert(code != 0, "exit status 0 for a file with an altered header")
 		if pre {
 			V.Assert(created && bytes.Equal(content, oldContent), "decryption was refused at the header but the existing output file was modified")
-		} else {
+		} else if V.Symbolic() || mode != 2 {
 			V.Assert(!created, "decryption was refused at the header but the output file was created")
 		}
 		return
@@ -259,7 +260,7 @@ func Harness_C15_decrypt() {
 	switch {
 	case damage == 2:
 		V.Assert(code != 0, "exit status 0 for a truncated payload")
-	case mode != 0 && !(mode == 2 && len(P) == 0):
+	case mode != 0:
 		V.Assert(code != 0, "exit status 0 although the output could not be created or written")
 	default:
 		V.Assert(code == 0, "non-zero exit status although decryption succeeded and the output accepted everything")
